@@ -1110,6 +1110,14 @@ class TLSConnection(TLSRecordLayer):
                 else:
                     break
 
+            # RFC 8446, section 4.1.4: only one Hello Retry Request per
+            # connection is allowed
+            if result.random == TLS_1_3_HRR:
+                for result in self._sendError(
+                        AlertDescription.unexpected_message,
+                        "Received second Hello Retry Request"):
+                    yield result
+
         serverHello = result
 
         # Get the server version.  Do this before anything else, so any
